@@ -3,8 +3,8 @@ package main
 // Generator of well-formed bundles W (and the wider class W+) for the Flatten properties C01–C10.
 
 import (
-	"github.com/go-openapi/swag"
 	"fmt"
+	"github.com/go-openapi/swag"
 	"path"
 	"sort"
 	"strings"
